@@ -73,7 +73,7 @@ class Perturb:
             time.sleep(d)
 
 
-def async_schedules(seed, nsteps=10, tie=False, variants=None):
+def async_schedules(seed, nsteps=10, tie=False, variants=None, family="random"):
     """One graph state, several executions of the same episode under different thread schedules, real-time factors
     and driving APIs. Returns all records and the machine configuration."""
     import sys
@@ -81,9 +81,13 @@ def async_schedules(seed, nsteps=10, tie=False, variants=None):
     from rex import _verif
 
     rng = random.Random(seed)
-    spec = rt.rand_spec(rng, tie_stream=tie)
+    spec = rt.spec_tie_advance(rng) if family == "tie_advance" else rt.rand_spec(rng, tie_stream=tie)
     run = rt.AsyncRun(spec)
     labels = [n["name"] for n in spec["nodes"]] + [f"{c['src']}->{c['dst']}" for c in spec["conns"]]
+    if family == "tie_advance" and variants is None:
+        variants = [dict(policy="none", rtf=0, api="run"), dict(policy="starve", rtf=0, api="run", target="n1"), dict(policy="starve", rtf=0, api="step", target="n2"),
+                    dict(policy="starve", rtf=0, api="run", target="n1->n2"), dict(policy="slow_ts_input", rtf=0, api="step"), dict(policy="slow_conns", rtf=0, api="run"),
+                    dict(policy="slow_nodes", rtf=0, api="run"), dict(policy="random", rtf=0, api="step")]
     if variants is None:
         variants = [dict(policy="none", rtf=0, api="run"), dict(policy="random", rtf=0, api="step"), dict(policy="slow_conns", rtf=0, api="run"),
                     dict(policy="slow_nodes", rtf=0, api="step"), dict(policy="starve", rtf=0, api="run", target=rng.choice(labels)),
